@@ -235,4 +235,448 @@ theorem pdbGo_conects (hb : ∀ b, pb (pCONECT ++ fb b) = some b) :
 
 end pdb
 
+/-! ### mol2.load_one's section loop and mol2.load_many's scan -/
+
+section mol2
+variable {α β : Type} (bc : Bool) (pa : Line → Option α) (pb : Line → Option β)
+
+
+/-- a line that both `mol2.load_many`'s scan and `mol2.load_one`'s section loop pass over -/
+def inert (l : Line) : Bool :=
+  l.isEmpty || (match words l with | [] => false | w :: _ => w != tMOLECULE && w != tATOM && w != tBOND)
+
+def MolStart (tl : List Line) : Prop := tl = [] ∨ ∃ m t, tl = m :: t ∧ (words m).head? = some tMOLECULE
+
+theorem inert_not_mol (l : Line) (h : inert l = true) : (words l).head? ≠ some tMOLECULE := by
+  unfold inert at h
+  cases l with
+  | nil => simp [words, wordsAux]
+  | cons c t =>
+    cases hw : words (c :: t) with
+    | nil => simp
+    | cons w ws => rw [hw] at h; simp at h; simp [h.1]
+
+theorem mol2Go_inert (l : Line) (h : inert l = true) (fuel : Nat) (hdr : Option Mol2Hdr)
+    (res : Option (Mol2Frame α β)) (t : List Line) (ln : Int) :
+    mol2Go bc pa pb (fuel + 1) hdr res ⟨l :: t, ln⟩ = mol2Go bc pa pb fuel hdr res ⟨t, ln + 1⟩ := by
+  rw [mol2Go]
+  simp only [next_cons]
+  by_cases he : l.isEmpty
+  · simp [he]
+  · unfold inert at h
+    simp [he] at h
+    cases hw : words l with
+    | nil => simp [hw] at h
+    | cons w ws => simp [hw] at h; simp [hw, h, he]
+
+theorem mol2Go_inerts : ∀ (sk : List Line), (∀ l ∈ sk, inert l = true) → ∀ (fuel : Nat) (hdr : Option Mol2Hdr)
+    (res : Option (Mol2Frame α β)) (t : List Line) (ln : Int),
+    mol2Go bc pa pb (fuel + sk.length) hdr res ⟨sk ++ t, ln⟩ = mol2Go bc pa pb fuel hdr res ⟨t, ln + sk.length⟩
+  | [], _, fuel, hdr, res, t, ln => by simp
+  | l :: sk, h, fuel, hdr, res, t, ln => by
+    have := mol2Go_inerts sk (fun x hx => h x (by simp [hx])) fuel hdr res t (ln + 1)
+    simp only [List.length_cons, List.cons_append, ← Nat.add_assoc]
+    rw [mol2Go_inert bc pa pb l (h l (by simp)), this]
+    congr 2; push_cast; omega
+
+theorem words_tMOLECULE : words tMOLECULE = [tMOLECULE] := by decide
+theorem words_tATOM : words tATOM = [tATOM] := by decide
+theorem words_tBOND : words tBOND = [tBOND] := by decide
+
+theorem mol2Go_header (fuel : Nat) (hdr : Option Mol2Hdr) (tl cl a b : Line) (r : List Line) (na nb : Int)
+    (hw : words cl = a :: b :: r) (hna : pyInt a = some na) (hnb : pyInt b = some nb) (t : List Line) (ln : Int) :
+    mol2Go bc pa pb (fuel + 1) hdr (none : Option (Mol2Frame α β)) ⟨tMOLECULE :: tl :: cl :: t, ln⟩ =
+      mol2Go bc pa pb fuel (some ⟨strip tl, na, nb⟩) none ⟨t, ln + 1 + 1 + 1⟩ := by
+  rw [mol2Go]
+  have h0 : tMOLECULE.isEmpty = false := by decide
+  simp [words_tMOLECULE, h0, hw, hna, hnb]
+
+theorem mol2Go_atom (fa : α → Line) (ha : ∀ a, pa (fa a) = some a) (fuel : Nat) (h : Mol2Hdr)
+    (res : Option (Mol2Frame α β)) (as : List α) (hn : h.natoms = as.length) (t : List Line) (ln : Int) :
+    ∃ ln', mol2Go bc pa pb (fuel + 1) (some h) res ⟨tATOM :: (as.map fa ++ t), ln⟩ =
+      mol2Go bc pa pb fuel (some h) (some ⟨h.title, as, none⟩) ⟨t, ln'⟩ := by
+  obtain ⟨ln', hr⟩ := readN_map pa fa ha as t (ln + 1)
+  refine ⟨ln', ?_⟩
+  rw [mol2Go]
+  have h0 : tATOM.isEmpty = false := by decide
+  have h1 : tATOM ≠ tMOLECULE := by decide
+  have hneg : ¬ ((as.length : Int) < 0) := by omega
+  simp [words_tATOM, h0, h1, hneg, hn, hr]
+
+theorem mol2Go_bond (fb : β → Line) (hb : ∀ b, pb (fb b) = some b) (fuel : Nat) (h : Mol2Hdr)
+    (r : Mol2Frame α β) (bs : List β) (hn : h.nbonds = bs.length) (t : List Line) (ln : Int) :
+    ∃ ln', mol2Go bc pa pb (fuel + 1) (some h) (some r) ⟨tBOND :: (bs.map fb ++ t), ln⟩ =
+      mol2Go bc pa pb fuel (some h) (some { r with bonds := some bs }) ⟨t, ln'⟩ := by
+  obtain ⟨ln', hr⟩ := readN_map pb fb hb bs t (ln + 1)
+  refine ⟨ln', ?_⟩
+  rw [mol2Go]
+  have h0 : tBOND.isEmpty = false := by decide
+  have h1 : tBOND ≠ tMOLECULE := by decide
+  have h2 : tBOND ≠ tATOM := by decide
+  have hneg : ¬ ((bs.length : Int) < 0) := by omega
+  simp [words_tBOND, h0, h1, h2, hneg, hn, hr]
+
+theorem mol2Go_eof (fuel : Nat) (hdr : Option Mol2Hdr) (res : Option (Mol2Frame α β)) (ln : Int) :
+    mol2Go bc pa pb (fuel + 1) hdr res ⟨[], ln⟩ = mol2Finish bc hdr res ⟨[], ln + 1⟩ := by
+  rw [mol2Go]; simp
+
+theorem mol2Go_next_mol (fuel : Nat) (hdr : Option Mol2Hdr) (r : Mol2Frame α β) (m : Line) (t : List Line)
+    (hm : (words m).head? = some tMOLECULE) (ln : Int) :
+    mol2Go bc pa pb (fuel + 1) hdr (some r) ⟨m :: t, ln⟩ = mol2Finish bc hdr (some r) ⟨m :: t, ln + 1 - 1⟩ := by
+  rw [mol2Go]
+  have h0 : m.isEmpty = false := by
+    cases m with
+    | nil => simp [words, wordsAux] at hm
+    | cons _ _ => rfl
+  cases hw : words m with
+  | nil => simp [hw] at hm
+  | cons w ws =>
+    simp [hw] at hm
+    simp [h0, hw, hm]
+
+variable (fc : Nat → Nat → Line) (fa : α → Line) (fb : β → Line)
+
+/-- the seven comment lines `dump_one` prints before the MOLECULE record -/
+def mol2Pre : List Line := ["# Mol2 file created with Iodata".toList, [], [], [], [], [], []]
+
+/-- what follows the MOLECULE record line in a written frame -/
+def mol2Body (f : Mol2Frame α β) : List Line :=
+  splitNl (titleOr f.title) ++ [fc f.atoms.length (match f.bonds with | none => 0 | some b => b.length), tATOM]
+    ++ f.atoms.map fa ++ (match f.bonds with | none => [] | some b => tBOND :: b.map fb)
+
+theorem mol2DumpOne_eq (f : Mol2Frame α β) :
+    mol2DumpOne fc fa fb f = mol2Pre ++ tMOLECULE :: mol2Body fc fa fb f := by
+  obtain ⟨t, a, b⟩ := f
+  cases b <;> simp [mol2DumpOne, mol2Head, mol2Pre, mol2Body]
+
+theorem mol2Pre_inert : ∀ l ∈ mol2Pre, inert l = true := by decide
+
+/-- the counts line is printed so that its first two words parse back -/
+def Mol2CountsOk (fc : Nat → Nat → Line) : Prop :=
+  ∀ na nb, ∃ a b r, words (fc na nb) = a :: b :: r ∧ pyInt a = some (na : Int) ∧ pyInt b = some (nb : Int)
+
+theorem mol2Go_after (sk : List Line) (hsk : ∀ l ∈ sk, inert l = true) (tl : List Line) (htl : MolStart tl)
+    (fuel : Nat) (hf : fuel ≥ sk.length + 1) (hdr : Option Mol2Hdr) (r : Mol2Frame α β) (ln : Int) :
+    ∃ ln', mol2Go bc pa pb fuel hdr (some r) ⟨sk ++ tl, ln⟩ = mol2Finish bc hdr (some r) ⟨tl, ln'⟩ := by
+  obtain ⟨k, rfl⟩ : ∃ k, fuel = (k + 1) + sk.length := ⟨fuel - sk.length - 1, by omega⟩
+  rw [mol2Go_inerts bc pa pb sk hsk]
+  cases htl with
+  | inl h => subst h; exact ⟨_, mol2Go_eof bc pa pb k hdr _ _⟩
+  | inr h =>
+    obtain ⟨m, t, rfl, hm⟩ := h
+    exact ⟨_, mol2Go_next_mol bc pa pb k hdr r m t hm _⟩
+
+/-- **what `load_one` does on a written frame**: from its MOLECULE record it reads the frame, passes over the
+    comment lines that follow and stops at the end of the file or in front of the next MOLECULE record. -/
+theorem mol2Go_frame (hc : Mol2CountsOk fc) (ha : ∀ a, pa (fa a) = some a) (hb : ∀ b, pb (fb b) = some b)
+    (f : Mol2Frame α β) (hnl : '\n' ∉ f.title) (sk : List Line) (hsk : ∀ l ∈ sk, inert l = true)
+    (tl : List Line) (htl : MolStart tl) (fuel : Nat) (hf : fuel ≥ sk.length + 4) (hdr0 : Option Mol2Hdr) (ln : Int) :
+    ∃ ln', mol2Go true pa pb fuel hdr0 none ⟨tMOLECULE :: (mol2Body fc fa fb f ++ (sk ++ tl)), ln⟩ =
+      .ok (mol2Norm f) ⟨tl, ln'⟩ := by
+  obtain ⟨title, atoms, bonds⟩ := f
+  simp only at hnl
+  have hT : splitNl (titleOr title) = [titleOr title] := splitNl_no_nl _ (titleOr_no_nl _ hnl)
+  cases bonds with
+  | none =>
+    obtain ⟨a, b, r, hw, hna, hnb⟩ := hc atoms.length 0
+    obtain ⟨k, rfl⟩ : ∃ k, fuel = k + 1 + 1 := ⟨fuel - 2, by omega⟩
+    obtain ⟨ln1, h1⟩ := mol2Go_atom true pa pb fa ha k ⟨strip (titleOr title), atoms.length, (0 : Nat)⟩ none atoms rfl
+      (sk ++ tl) (ln + 1 + 1 + 1)
+    obtain ⟨ln2, h2⟩ := mol2Go_after true pa pb sk hsk tl htl k (by omega)
+      (some ⟨strip (titleOr title), atoms.length, (0 : Nat)⟩) ⟨strip (titleOr title), atoms, none⟩ ln1
+    refine ⟨ln2, ?_⟩
+    simp only [mol2Body, hT, List.cons_append, List.nil_append, List.append_nil, List.append_assoc]
+    rw [mol2Go_header true pa pb (k + 1) hdr0 _ _ a b r _ _ hw hna hnb, h1, h2]
+    simp [mol2Finish, mol2Norm]
+  | some bs =>
+    obtain ⟨a, b, r, hw, hna, hnb⟩ := hc atoms.length bs.length
+    obtain ⟨k, rfl⟩ : ∃ k, fuel = k + 1 + 1 + 1 := ⟨fuel - 3, by omega⟩
+    obtain ⟨ln1, h1⟩ := mol2Go_atom true pa pb fa ha (k + 1) ⟨strip (titleOr title), atoms.length, bs.length⟩ none atoms rfl
+      (tBOND :: (bs.map fb ++ (sk ++ tl))) (ln + 1 + 1 + 1)
+    obtain ⟨ln2, h2⟩ := mol2Go_bond true pa pb fb hb k ⟨strip (titleOr title), atoms.length, bs.length⟩
+      ⟨strip (titleOr title), atoms, none⟩ bs rfl (sk ++ tl) ln1
+    obtain ⟨ln3, h3⟩ := mol2Go_after true pa pb sk hsk tl htl k (by omega)
+      (some ⟨strip (titleOr title), atoms.length, bs.length⟩) ⟨strip (titleOr title), atoms, some bs⟩ ln2
+    refine ⟨ln3, ?_⟩
+    simp only [mol2Body, hT, List.cons_append, List.nil_append, List.append_assoc]
+    rw [mol2Go_header true pa pb (k + 1 + 1) hdr0 _ _ a b r _ _ hw hna hnb, h1, h2, h3]
+    simp [mol2Finish, mol2Norm]
+
+theorem mol2Body_length (f : Mol2Frame α β) (hnl : '\n' ∉ f.title) :
+    (mol2Body fc fa fb f).length =
+      3 + f.atoms.length + (match f.bonds with | none => 0 | some b => 1 + b.length) := by
+  have hT : splitNl (titleOr f.title) = [titleOr f.title] := splitNl_no_nl _ (titleOr_no_nl _ hnl)
+  cases hb : f.bonds <;> simp [mol2Body, hT, hb] <;> omega
+
+/-- **prefix-consumption law of MOL2**, in the form the format allows -/
+theorem mol2_loadOne_frame (hc : Mol2CountsOk fc) (ha : ∀ a, pa (fa a) = some a) (hb : ∀ b, pb (fb b) = some b)
+    (f : Mol2Frame α β) (hnl : '\n' ∉ f.title) (sk : List Line) (hsk : ∀ l ∈ sk, inert l = true)
+    (tl : List Line) (htl : MolStart tl) (ln : Int) :
+    ∃ ln', mol2LoadOne true pa pb ⟨tMOLECULE :: (mol2Body fc fa fb f ++ (sk ++ tl)), ln⟩ =
+      .ok (mol2Norm f) ⟨tl, ln'⟩ := by
+  unfold mol2LoadOne
+  apply mol2Go_frame pa pb fc fa fb hc ha hb f hnl sk hsk tl htl
+  simp [mol2Body_length fc fa fb f hnl]
+  omega
+theorem molStart_mol (t : List Line) : MolStart (tMOLECULE :: t) :=
+  Or.inr ⟨tMOLECULE, t, rfl, by rw [words_tMOLECULE]; rfl⟩
+
+theorem scanMolGo_skip (first : Bool) : ∀ (sk : List Line), (∀ l ∈ sk, inert l = true) →
+    ∀ (m : Line) (t : List Line) (ln : Int), (words m).head? = some tMOLECULE →
+      scanMolGo first (sk ++ m :: t) ln = .go ⟨m :: t, ln + sk.length⟩
+  | [], _, m, t, ln, hm => by simp [scanMolGo, hm]
+  | l :: sk, h, m, t, ln, hm => by
+    have hl := inert_not_mol l (h l (by simp))
+    have := scanMolGo_skip first sk (fun x hx => h x (by simp [hx])) m t (ln + 1) hm
+    simp only [List.cons_append, scanMolGo, hl, if_false, this, List.length_cons]
+    congr 2; push_cast; omega
+
+theorem scanMolGo_eof (first : Bool) : ∀ (sk : List Line), (∀ l ∈ sk, inert l = true) → ∀ (ln : Int),
+    scanMolGo first sk ln = if first then .eofErr ⟨[], ln + sk.length + 1⟩ else .eof
+  | [], _, ln => by simp [scanMolGo]
+  | l :: sk, h, ln => by
+    have hl := inert_not_mol l (h l (by simp))
+    have := scanMolGo_eof first sk (fun x hx => h x (by simp [hx])) (ln + 1)
+    simp only [scanMolGo, hl, if_false, this, List.length_cons]
+    cases first <;> simp
+    omega
+
+/-- **the induction for MOL2**: the pending lines are comment lines, a MOLECULE record with its frame, further
+    complete written frames, comment lines, and a tail that is empty or starts with a MOLECULE record.  The loop
+    yields the frames in order and continues on the tail. -/
+theorem mol2_runLoop_frames (hc : Mol2CountsOk fc) (ha : ∀ a, pa (fa a) = some a) (hb : ∀ b, pb (fb b) = some b)
+    (tsk tl : List Line) (htsk : ∀ l ∈ tsk, inert l = true) (htl : MolStart tl)
+    (P : List (Mol2Frame α β) × GenFinal → Prop)
+    (htail : ∀ fuel ln, fuel ≥ tl.length + 1 → P (runLoop mol2Skel (mol2LoadOne true pa pb) fuel false ⟨tl, ln⟩)) :
+    ∀ (fs : List (Mol2Frame α β)) (f : Mol2Frame α β) (sk : List Line) (fuel : Nat) (ln : Int) (first : Bool),
+      (∀ g ∈ f :: fs, '\n' ∉ g.title) → (∀ l ∈ sk, inert l = true) →
+      fuel ≥ (fs.flatMap (mol2DumpOne fc fa fb) ++ (tsk ++ tl)).length + 2 →
+      ∃ r, P r ∧ runLoop mol2Skel (mol2LoadOne true pa pb) fuel first
+          ⟨sk ++ tMOLECULE :: (mol2Body fc fa fb f ++ (fs.flatMap (mol2DumpOne fc fa fb) ++ (tsk ++ tl))), ln⟩ =
+        (mol2Norm f :: fs.map mol2Norm ++ r.1, r.2) := by
+  intro fs
+  induction fs with
+  | nil =>
+    intro f sk fuel ln first hnl hsk hf
+    obtain ⟨ln', hl⟩ := mol2_loadOne_frame pa pb fc fa fb hc ha hb f (hnl f (by simp)) tsk htsk tl htl (ln + sk.length)
+    cases fuel with
+    | zero => simp at hf
+    | succ fuel =>
+      refine ⟨_, htail fuel ln' (by simp at hf; omega), ?_⟩
+      have hp := scanMolGo_skip first sk hsk tMOLECULE (mol2Body fc fa fb f ++ (tsk ++ tl)) ln
+        (by rw [words_tMOLECULE]; rfl)
+      simp only [List.flatMap_nil, List.nil_append, runLoop, mol2Skel, runPeek, hp, hl, List.map_nil, List.cons_append]
+  | cons g gs ih =>
+    intro f sk fuel ln first hnl hsk hf
+    have hrest : (g :: gs).flatMap (mol2DumpOne fc fa fb) ++ (tsk ++ tl) =
+        mol2Pre ++ (tMOLECULE :: (mol2Body fc fa fb g ++ (gs.flatMap (mol2DumpOne fc fa fb) ++ (tsk ++ tl)))) := by
+      simp [mol2DumpOne_eq]
+    obtain ⟨ln', hl⟩ := mol2_loadOne_frame pa pb fc fa fb hc ha hb f (hnl f (by simp)) mol2Pre mol2Pre_inert
+      _ (molStart_mol (mol2Body fc fa fb g ++ (gs.flatMap (mol2DumpOne fc fa fb) ++ (tsk ++ tl)))) (ln + sk.length)
+    cases fuel with
+    | zero => simp at hf
+    | succ fuel =>
+      obtain ⟨r, hr, he⟩ := ih g [] fuel ln' false (fun x hx => hnl x (by simp at hx ⊢; right; exact hx))
+        (by simp) (by rw [hrest] at hf; simp at hf ⊢; omega)
+      refine ⟨r, hr, ?_⟩
+      have hp := scanMolGo_skip first sk hsk tMOLECULE
+        (mol2Body fc fa fb f ++ ((g :: gs).flatMap (mol2DumpOne fc fa fb) ++ (tsk ++ tl))) ln
+        (by rw [words_tMOLECULE]; rfl)
+      rw [hrest] at hp ⊢
+      simp only [List.nil_append, mol2Skel] at he
+      simp only [runLoop, mol2Skel, runPeek, hp, hl, he, List.map_cons, List.cons_append]
+theorem mol2Go_atom_short (ha : ∀ a, pa (fa a) = some a) (fuel' : Nat) (hf : 0 < fuel') (h : Mol2Hdr)
+    (res : Option (Mol2Frame α β)) (as : List α) (hn : (as.length : Int) < h.natoms) (ln : Int) :
+    ∃ ln', mol2Go bc pa pb fuel' (some h) res ⟨tATOM :: as.map fa, ln⟩ = .raise .stop ⟨[], ln'⟩ := by
+  obtain ⟨fuel, rfl⟩ : ∃ k, fuel' = k + 1 := ⟨fuel' - 1, by omega⟩
+  obtain ⟨ln', hr⟩ := readN_short pa fa ha as h.natoms.toNat (ln + 1) (by omega)
+  refine ⟨ln', ?_⟩
+  rw [mol2Go]
+  have h0 : tATOM.isEmpty = false := by decide
+  have h1 : tATOM ≠ tMOLECULE := by decide
+  have hneg : ¬ (h.natoms < 0) := by omega
+  simp [words_tATOM, h0, h1, hneg, hr]
+
+theorem mol2Go_bond_short (hb : ∀ b, pb (fb b) = some b) (fuel' : Nat) (hf : 0 < fuel') (h : Mol2Hdr)
+    (res : Option (Mol2Frame α β)) (bs : List β) (hn : (bs.length : Int) < h.nbonds) (ln : Int) :
+    ∃ ln', mol2Go bc pa pb fuel' (some h) res ⟨tBOND :: bs.map fb, ln⟩ = .raise .stop ⟨[], ln'⟩ := by
+  obtain ⟨fuel, rfl⟩ : ∃ k, fuel' = k + 1 := ⟨fuel' - 1, by omega⟩
+  obtain ⟨ln', hr⟩ := readN_short pb fb hb bs h.nbonds.toNat (ln + 1) (by omega)
+  refine ⟨ln', ?_⟩
+  rw [mol2Go]
+  have h0 : tBOND.isEmpty = false := by decide
+  have h1 : tBOND ≠ tMOLECULE := by decide
+  have h2 : tBOND ≠ tATOM := by decide
+  have hneg : ¬ (h.nbonds < 0) := by omega
+  simp [words_tBOND, h0, h1, h2, hneg, hr]
+
+theorem mol2Go_header' (fuel : Nat) (hf : 0 < fuel) (hdr : Option Mol2Hdr) (tl cl a b : Line) (r : List Line)
+    (na nb : Int) (hw : words cl = a :: b :: r) (hna : pyInt a = some na) (hnb : pyInt b = some nb) (t : List Line)
+    (ln : Int) :
+    mol2Go bc pa pb fuel hdr (none : Option (Mol2Frame α β)) ⟨tMOLECULE :: tl :: cl :: t, ln⟩ =
+      mol2Go bc pa pb (fuel - 1) (some ⟨strip tl, na, nb⟩) none ⟨t, ln + 1 + 1 + 1⟩ := by
+  obtain ⟨k, rfl⟩ : ∃ k, fuel = k + 1 := ⟨fuel - 1, by omega⟩
+  exact mol2Go_header bc pa pb k hdr tl cl a b r na nb hw hna hnb t ln
+
+theorem mol2Go_atom' (ha : ∀ a, pa (fa a) = some a) (fuel : Nat) (hf : 0 < fuel) (h : Mol2Hdr)
+    (res : Option (Mol2Frame α β)) (as : List α) (hn : h.natoms = as.length) (t : List Line) (ln : Int) :
+    ∃ ln', mol2Go bc pa pb fuel (some h) res ⟨tATOM :: (as.map fa ++ t), ln⟩ =
+      mol2Go bc pa pb (fuel - 1) (some h) (some ⟨h.title, as, none⟩) ⟨t, ln'⟩ := by
+  obtain ⟨k, rfl⟩ : ∃ k, fuel = k + 1 := ⟨fuel - 1, by omega⟩
+  exact mol2Go_atom bc pa pb fa ha k h res as hn t ln
+
+theorem mol2Go_eof' (fuel : Nat) (hf : 0 < fuel) (hdr : Option Mol2Hdr) (res : Option (Mol2Frame α β)) (ln : Int) :
+    mol2Go bc pa pb fuel hdr res ⟨[], ln⟩ = mol2Finish bc hdr res ⟨[], ln + 1⟩ := by
+  obtain ⟨k, rfl⟩ : ∃ k, fuel = k + 1 := ⟨fuel - 1, by omega⟩
+  exact mol2Go_eof bc pa pb k hdr res ln
+
+/-- the lines after the MOLECULE record of a written frame, with the count and the bond section as parameters -/
+theorem mol2Body_eq (f : Mol2Frame α β) (hnl : '\n' ∉ f.title) :
+    mol2Body fc fa fb f = titleOr f.title ::
+      fc f.atoms.length (match f.bonds with | none => 0 | some b => b.length) :: tATOM ::
+      (f.atoms.map fa ++ (match f.bonds with | none => [] | some b => tBOND :: b.map fb)) := by
+  have hT : splitNl (titleOr f.title) = [titleOr f.title] := splitNl_no_nl _ (titleOr_no_nl _ hnl)
+  obtain ⟨t, a, b⟩ := f
+  cases b <;> simp_all [mol2Body]
+
+/-- cut inside the header or the atom records -/
+theorem mol2_cut_head (ha : ∀ a, pa (fa a) = some a) (T C : Line) (ca cb : Line) (r : List Line) (nb : Int)
+    (atoms : List α) (hw : words C = ca :: cb :: r) (hna : pyInt ca = some (atoms.length : Int))
+    (hnb : pyInt cb = some nb) (bsec : List Line) (k : Nat) (hk : k < 3 + atoms.length) (ln : Int) :
+    ∃ e s, mol2LoadOne true pa pb ⟨tMOLECULE :: (T :: C :: tATOM :: (atoms.map fa ++ bsec)).take k, ln⟩ =
+      (.raise e s : Res (Mol2Frame α β)) := by
+  have h0 : tMOLECULE.isEmpty = false := by decide
+  unfold mol2LoadOne
+  rcases k with _ | _ | _ | k
+  · exact ⟨.stop, ⟨[], ln + 1 + 1⟩, by simp [mol2Go, words_tMOLECULE, h0]⟩
+  · exact ⟨.stop, ⟨[], ln + 1 + 1 + 1⟩, by simp [mol2Go, words_tMOLECULE, h0]⟩
+  · refine ⟨.loadError, ⟨[], ln + 1 + 1 + 1 + 1⟩, ?_⟩
+    simp only [List.take_succ_cons, List.take_zero, List.length_cons, List.length_nil]
+    rw [mol2Go_header' true pa pb _ (by omega) none _ _ ca cb r _ _ hw hna hnb, mol2Go_eof' true pa pb _ (by omega)]
+    simp [mol2Finish]
+  · have h1 : (atoms.map fa ++ bsec).take k = (atoms.take k).map fa := by
+      rw [List.take_append, List.map_take]
+      have : k - (atoms.map fa).length = 0 := by simp; omega
+      rw [this]; simp
+    simp only [List.take_succ_cons, h1, List.length_cons, List.length_map]
+    rw [mol2Go_header' true pa pb _ (by omega) none _ _ ca cb r _ _ hw hna hnb]
+    obtain ⟨ln', h3⟩ := mol2Go_atom_short true pa pb fa ha ((atoms.take k).length + 1 + 1 + 1 + 1 + 1 - 1) (by omega)
+      ⟨strip T, atoms.length, nb⟩ none (atoms.take k) (by simp; omega) (ln + 1 + 1 + 1)
+    exact ⟨_, _, h3⟩
+
+/-- cut in front of the bond section's header line or inside the bond records -/
+theorem mol2_cut_bonds (ha : ∀ a, pa (fa a) = some a) (hb : ∀ b, pb (fb b) = some b) (T C : Line) (ca cb : Line)
+    (r : List Line) (atoms : List α) (bs : List β) (hw : words C = ca :: cb :: r)
+    (hna : pyInt ca = some (atoms.length : Int)) (hnb : pyInt cb = some (bs.length : Int)) (i : Nat)
+    (hi : i ≤ bs.length) (hne : i = 0 → bs ≠ []) (ln : Int) :
+    ∃ e s, mol2LoadOne true pa pb
+        ⟨tMOLECULE :: (T :: C :: tATOM :: (atoms.map fa ++ tBOND :: bs.map fb)).take (3 + atoms.length + i), ln⟩ =
+      (.raise e s : Res (Mol2Frame α β)) := by
+  unfold mol2LoadOne
+  have h1 : (T :: C :: tATOM :: (atoms.map fa ++ tBOND :: bs.map fb)).take (3 + atoms.length + i) =
+      T :: C :: tATOM :: (atoms.map fa ++ (tBOND :: bs.map fb).take i) := by
+    rw [show 3 + atoms.length + i = (atoms.length + i) + 1 + 1 + 1 by omega]
+    simp only [List.take_succ_cons]
+    rw [List.take_append, List.take_of_length_le (by simp)]
+    simp
+  rw [h1]
+  generalize hfu : (Lit.mk (tMOLECULE :: T :: C :: tATOM :: (atoms.map fa ++ (tBOND :: bs.map fb).take i)) ln).pending.length
+    + 1 = L
+  have hL : L ≥ 5 := by simp at hfu; omega
+  rw [mol2Go_header' true pa pb _ (by omega) none _ _ ca cb r _ _ hw hna hnb]
+  obtain ⟨ln1, h3⟩ := mol2Go_atom' true pa pb fa ha (L - 1) (by omega) ⟨strip T, atoms.length, bs.length⟩
+    none atoms rfl ((tBOND :: bs.map fb).take i) (ln + 1 + 1 + 1)
+  rw [h3]
+  rcases i with _ | j
+  · refine ⟨.loadError, ⟨[], ln1 + 1⟩, ?_⟩
+    have hpos : 0 < bs.length := by
+      cases bs with
+      | nil => exact absurd rfl (hne rfl)
+      | cons _ _ => simp
+    rw [List.take_zero, mol2Go_eof' true pa pb _ (by omega)]
+    simp [mol2Finish, hpos]
+  · rw [List.take_succ_cons, ← List.map_take]
+    obtain ⟨ln', h4⟩ := mol2Go_bond_short true pa pb fb hb (L - 1 - 1) (by omega) ⟨strip T, atoms.length, bs.length⟩
+      (some ⟨strip T, atoms, none⟩) (bs.take j) (by simp; omega) ln1
+    exact ⟨_, _, h4⟩
+
+/-- a proper prefix of a written frame (cut after the MOLECULE record line and `k` further lines) makes `load_one`
+    raise — except the one cut that only removes the header line of an EMPTY bond section, which leaves a complete
+    written frame without bond section (`mol2Body_cut_empty_bonds`). -/
+theorem mol2_cut_raises (hc : Mol2CountsOk fc) (ha : ∀ a, pa (fa a) = some a) (hb : ∀ b, pb (fb b) = some b)
+    (f : Mol2Frame α β) (hnl : '\n' ∉ f.title) (k : Nat) (hk : k < (mol2Body fc fa fb f).length)
+    (hex : ¬ (f.bonds = some [] ∧ k + 1 = (mol2Body fc fa fb f).length)) (ln : Int) :
+    ∃ e s, mol2LoadOne true pa pb ⟨tMOLECULE :: (mol2Body fc fa fb f).take k, ln⟩ = .raise e s := by
+  rw [mol2Body_length fc fa fb f hnl] at hk hex
+  rw [mol2Body_eq fc fa fb f hnl]
+  obtain ⟨title, atoms, bonds⟩ := f
+  cases bonds with
+  | none =>
+    obtain ⟨a, b, r, hw, hna, hnb⟩ := hc atoms.length 0
+    exact mol2_cut_head pa pb fa ha _ _ a b r _ atoms hw hna hnb [] k (by simpa using hk) ln
+  | some bs =>
+    obtain ⟨a, b, r, hw, hna, hnb⟩ := hc atoms.length bs.length
+    by_cases hka : k < 3 + atoms.length
+    · exact mol2_cut_head pa pb fa ha _ _ a b r _ atoms hw hna hnb _ k hka ln
+    · obtain ⟨i, rfl⟩ : ∃ i, k = 3 + atoms.length + i := ⟨k - (3 + atoms.length), by omega⟩
+      simp only at hk hex
+      exact mol2_cut_bonds pa pb fa fb ha hb _ _ a b r atoms bs hw hna hnb i (by omega)
+        (fun h0 e => hex ⟨by rw [e], by subst h0 e; simp⟩) ln
+
+/-- the exceptional cut: removing only the header line of an empty bond section gives the written form of the same
+    frame without bond section — a complete file, not a truncated one -/
+theorem mol2Body_cut_empty_bonds (f : Mol2Frame α β) (h : f.bonds = some []) :
+    (mol2Body fc fa fb f).take ((mol2Body fc fa fb f).length - 1) = mol2Body fc fa fb { f with bonds := none } := by
+  obtain ⟨title, atoms, bonds⟩ := f
+  simp only at h
+  subst h
+  simp only [mol2Body, List.map_nil, List.append_nil]
+  rw [List.take_append, List.take_of_length_le (by simp)]
+  simp
+
+/-- comment lines in front of the tail do not matter to the loop -/
+theorem mol2_runLoop_skip (tsk tl : List Line) (htsk : ∀ l ∈ tsk, inert l = true) (htl : MolStart tl)
+    (fuel : Nat) (hf : 0 < fuel) (first : Bool) (ln : Int) :
+    runLoop mol2Skel (mol2LoadOne true pa pb) fuel first ⟨tsk ++ tl, ln⟩ =
+      runLoop mol2Skel (mol2LoadOne true pa pb) fuel first ⟨tl, ln + tsk.length⟩ := by
+  obtain ⟨k, rfl⟩ : ∃ k, fuel = k + 1 := ⟨fuel - 1, by omega⟩
+  cases htl with
+  | inl h =>
+    subst h
+    have h1 := scanMolGo_eof first tsk htsk ln
+    simp only [runLoop, mol2Skel, runPeek, List.append_nil, h1]
+    cases first <;> simp [scanMolGo]
+  | inr h =>
+    obtain ⟨m, t, rfl, hm⟩ := h
+    have h1 := scanMolGo_skip first tsk htsk m t ln hm
+    simp only [runLoop, mol2Skel, runPeek, h1]
+    simp [scanMolGo, hm]
+
+/-- **MOL2, any number of written frames followed by a tail**: the frames are yielded in order and the loop
+    continues on the tail (which is empty or starts with a MOLECULE record), in front of which comment lines are
+    passed over — by the last frame's `load_one` or, without any frame, by the scan of `load_many`. -/
+theorem mol2_runLoop_file (hc : Mol2CountsOk fc) (ha : ∀ a, pa (fa a) = some a) (hb : ∀ b, pb (fb b) = some b)
+    (tsk tl : List Line) (htsk : ∀ l ∈ tsk, inert l = true) (htl : MolStart tl)
+    (P : List (Mol2Frame α β) × GenFinal → Prop) (fs : List (Mol2Frame α β)) (first : Bool)
+    (htail : ∀ fuel ln, fuel ≥ tl.length + 1 →
+      P (runLoop mol2Skel (mol2LoadOne true pa pb) fuel (first && fs.isEmpty) ⟨tl, ln⟩))
+    (hnl : ∀ g ∈ fs, '\n' ∉ g.title) (fuel : Nat)
+    (hf : fuel ≥ (fs.flatMap (mol2DumpOne fc fa fb) ++ (tsk ++ tl)).length + 1) (ln : Int) :
+    ∃ r, P r ∧ runLoop mol2Skel (mol2LoadOne true pa pb) fuel first
+        ⟨fs.flatMap (mol2DumpOne fc fa fb) ++ (tsk ++ tl), ln⟩ = (fs.map mol2Norm ++ r.1, r.2) := by
+  cases fs with
+  | nil =>
+    refine ⟨_, htail fuel (ln + tsk.length) (by simp at hf; omega), ?_⟩
+    simp only [List.flatMap_nil, List.nil_append, List.map_nil, List.isEmpty_nil, Bool.and_true]
+    exact mol2_runLoop_skip pa pb tsk tl htsk htl fuel (by omega) first ln
+  | cons f fs =>
+    have hrest : (f :: fs).flatMap (mol2DumpOne fc fa fb) ++ (tsk ++ tl) =
+        mol2Pre ++ (tMOLECULE :: (mol2Body fc fa fb f ++ (fs.flatMap (mol2DumpOne fc fa fb) ++ (tsk ++ tl)))) := by
+      simp [mol2DumpOne_eq]
+    rw [hrest] at hf ⊢
+    simp only [List.isEmpty_cons, Bool.and_false] at htail
+    exact mol2_runLoop_frames pa pb fc fa fb hc ha hb tsk tl htsk htl P htail fs f mol2Pre fuel ln first hnl
+      mol2Pre_inert (by simp at hf ⊢; omega)
+end mol2
+
 end Iodata.Traj
